@@ -102,6 +102,12 @@ class C05(Prop):
 
     # -- execute -------------------------------------------------------------
     def execute(self, plan, ctx, variant=None):
+        # cookies with expires= read the wall clock: keep it virtual so that runs replay exactly
+        from ..simclock import SimClock, installed
+        with installed(SimClock(1_700_000_000.25), "UTC"):
+            self._execute(plan, ctx, variant)
+
+    def _execute(self, plan, ctx, variant=None):
         variant = tuple(variant) if variant is not None else None
         fs = self.fs
         fs.fault_plan = {}
